@@ -342,7 +342,7 @@ def roundtrip_one(c: dict, root: str, built: dict) -> list[tuple[str, str]]:
     cfg = c["cfg"]
     cname = CLASSES[cfg["cls"]].__name__
     sp = c["spelling"]
-    tag = f"{cname} act={cfg['act']} obs={cfg['obs']} kw={cfg['kw']} key={c['key']} fill={c['fill']} path={SPELLINGS[sp]!r}({'Path' if c['as_path'] else 'str'}{', jit' if c.get('jit') else ''})"
+    tag = f"{cname} act={cfg['act']} obs={cfg['obs']} kw={cfg['kw']} key={c['key']} fill={c['fill']} path={SPELLINGS[sp]!r}({'Path' if c['as_path'] else 'str'}{', jit' if c.get('jit') else ''}{', pre-existing ' + c['sibling'] + ' named like the suffix-less path' if c.get('sibling') else ''})"
     bk = json.dumps([cfg, c["key"]], sort_keys=True)
     try:
         if bk not in built:
@@ -357,6 +357,22 @@ def roundtrip_one(c: dict, root: str, built: dict) -> list[tuple[str, str]]:
     want = leaf_rows(policy)
     path = spell(root, sp, c["as_path"])
     parent = os.path.dirname(str(path))
+    preexisting: list[str] = []
+    if c.get("sibling") and Path(str(path)).suffix == "":
+        # environment answer: the file system already holds an entry named exactly like the suffix-less path
+        try:
+            _, other = build(cfg, c["key"] + 17)
+            if c["sibling"] == "dir":  # e.g. runs/ppo/best.eqx saved earlier, now saving runs/ppo
+                other.serialize(os.path.join(str(path), "best"))
+                jax.effects_barrier()
+            else:  # a stale, extension-less checkpoint of the same architecture
+                os.makedirs(parent, exist_ok=True)
+                other.serialize(str(path) + "__stale")
+                jax.effects_barrier()
+                os.replace(str(path) + "__stale.eqx", str(path))
+        except Exception as e:
+            raise RuntimeError(f"harness: could not prepare sibling entry: {e!r}")
+        preexisting = files_under(root)
     try:
         if c.get("jit"):
             eqx.filter_jit(lambda p: p.serialize(path))(policy)
@@ -365,7 +381,7 @@ def roundtrip_one(c: dict, root: str, built: dict) -> list[tuple[str, str]]:
         jax.effects_barrier()
     except Exception as e:
         return [(f"C18/roundtrip/serialize-raised/{sp}/{type(e).__name__}", f"{tag}: serialize raised {type(e).__name__}: {str(e)[:300]}")]
-    files = files_under(root)
+    files = [f for f in files_under(root) if f not in preexisting]
     if len(files) != 1:
         return [(f"C18/roundtrip/files/{sp}/{'none' if not files else 'several'}",
                  f"{tag}: after serialize + effects_barrier the scratch directory holds {[os.path.relpath(f, root) for f in files]}, expected exactly one file")]
@@ -793,6 +809,16 @@ def _explore(ctx: Ctx):
         for sp in ("plain", "newdir-eqx"):
             add_case(lst[0], 0, "init", sp, False, outputs=False, jit=True)
             add_case(lst[-1], 1, "special", sp, True, outputs=False, jit=True)
+
+    # the file system already holds an entry named exactly like the suffix-less path (a directory created by an earlier
+    # save below it, or a stale extension-less checkpoint): the freshly saved policy must still be the one restored
+    for lst in G.values():
+        for cfg in (lst[0], lst[-1]) if not thorough else lst:
+            for sib in ("dir", "stale"):
+                for sp in ("plain", "newdir", "dotdir"):
+                    c = {"cfg": cfg, "key": keys[0], "load_key": load_keys[0], "fill": "init", "spelling": sp, "as_path": sp == "newdir", "sibling": sib, "outputs": False}
+                    cases.append(c)
+                    ctx.guard(f"sibling:{sib}")
 
     # vacuity: is restoring observable?  (policy built with the load key differs from the saved one)
     for cfg in allcfg:
